@@ -68,7 +68,7 @@ Fixpoint witness_loop (fuel : nat) (n : Z) (acc : list bytes) (bs : bytes) : res
       let data := takeZ push item_bytes in
       let bs' := dropZ push item_bytes in
       let n' := n - 1 in
-      if n' =? 0 then Ok (rev (data :: acc), bs')
+      if n' =? 0 then Ok (rev_append (data :: acc) [], bs')    (* = rev, in linear time *)
       else witness_loop fuel' n' (data :: acc) bs'
     end
   end.
